@@ -1,10 +1,12 @@
 #!/bin/sh
-# sweep.sh <tier> <seeds...> : run every check on a SNAPSHOT of /repo with several seeds, evidence and
+# sweep.sh <tier> <seeds...> : run every check on SNAPSHOTS of /repo and /verif with several seeds, evidence and
 # replays under /tmp/xv_sweep (not the committed evidence); one summary line per run in /tmp/xv_sweep/summary.txt
 TIER="$1"; shift
-SNAP=/tmp/xv_sweep/repo; OUT=/tmp/xv_sweep
-mkdir -p $OUT; rm -rf $SNAP; rsync -a --exclude .git /repo/ $SNAP/
-cd /verif
+OUT=/tmp/xv_sweep; SNAP=$OUT/repo; VSNAP=$OUT/verif
+mkdir -p $OUT; rm -rf $SNAP $VSNAP
+rsync -a --exclude .git /repo/ $SNAP/
+rsync -a --exclude .git --exclude out --exclude evidence /verif/ $VSNAP/
+cd $VSNAP
 PROPS="${XV_PROPS:-C01 C02 C03 C04 C05 C06 C07 C08 C09 C10 C11 C12 C13 C14 C15 C16 C17 C18 C19}"
 for S in "$@"; do
   for P in $PROPS; do
@@ -12,5 +14,4 @@ for S in "$@"; do
     echo "rc=$? seed=$S $(grep -c '^VIOLATION' $OUT/$P.$TIER.$S.log) viol | $(tail -1 $OUT/$P.$TIER.$S.log | cut -c1-200)" >> $OUT/summary.txt
   done
 done
-rm -rf $SNAP
-echo SWEEP-DONE >> $OUT/summary.txt
+echo "SWEEP-DONE $TIER $*" >> $OUT/summary.txt
